@@ -365,7 +365,12 @@ def run(ctx):
                detail={"looked_up": keys, "emitted_by_range_macros": sorted(produced), "unknown": unknown},
                what="%s looks up metadata key(s) %s that no range macro emits (emitted: %s)" % (q, unknown or keys, sorted(produced)))
         # the log test: strstr(meta["scale"], LIT): LIT occurs in rLog's scale value and not in rLinear's
-        lits = [A.string_literal(A.kids(c)[2]) for c in A.calls_in(u.body(fn), "strstr") if any(k == "scale" for k, _, _ in MK.lookups(u, A.kids(c)[1]))]
+        def _is_scale(e):
+            if any(k == "scale" for k, _, _ in MK.lookups(u, e)):
+                return True
+            d_ = u.by_id.get(A.ref_id(e)) if A.ref_id(e) else None          # a local holding the looked-up value
+            return d_ is not None and d_.get("kind") == "VarDecl" and A.kids(d_) and any(k == "scale" for k, _, _ in MK.lookups(u, A.kids(d_)[-1]))
+        lits = [A.string_literal(A.kids(c)[2]) for c in A.calls_in(u.body(fn), "strstr") if _is_scale(A.kids(c)[1])]
         lin = dict(em["rLinear"]).get("scale") or ""
         lg = dict(em["rLog"]).get("scale") or ""
         lg2 = dict(em["rLogWithLogmin"]).get("scale") or ""
@@ -419,14 +424,38 @@ def _same_index_excluded(conds, a, b):
 
 def _queue_witness(u, sentinel, member_text, x, tgt, is_sent, conds, cconds, binds, q):
     """an assignment of queue positions under which the guards hold although a position in them is the sentinel -1"""
+    # a local that holds a copy of a queue position (`const int pos = s.learning;`, written nowhere else) stands for it
+    copies = {}
+    fn_ = None
+    for a_ in u.ancestors(x):
+        if a_.get("kind") in ("CXXMethodDecl", "FunctionDecl"):
+            fn_ = a_
+            break
+    for c_, _ in conds + cconds:
+        for y in A.walk(c_):
+            if y.get("kind") == "DeclRefExpr" and (y.get("referencedDecl") or {}).get("kind") == "VarDecl":
+                d_ = u.by_id.get(y["referencedDecl"]["id"])
+                if d_ is None or not A.kids(d_) or d_["id"] in copies:
+                    continue
+                init_ = A.strip_casts(A.kids(d_)[-1])
+                if init_.get("kind") == "MemberExpr" and init_.get("referencedMemberDecl") in sentinel:
+                    written = fn_ is not None and any(
+                        (z.get("kind") in ("BinaryOperator", "CompoundAssignOperator") and z.get("opcode", "").endswith("=") and z.get("opcode") not in ("==", "!=", "<=", ">=") and A.ref_id(A.kids(z)[0]) == d_["id"]) or
+                        (z.get("kind") == "UnaryOperator" and z.get("opcode") in ("++", "--") and A.ref_id(A.kids(z)[0]) == d_["id"]) for z in A.walk(fn_))
+                    if not written:
+                        copies[d_["id"]] = member_text(init_)
+
     def relevant(c):
         # a guard that reads no queue position and no helper parameter only narrows the cases: leaving it out is conservative
+        if any(y.get("kind") == "DeclRefExpr" and (y.get("referencedDecl") or {}).get("id") in copies for y in A.walk(c)):
+            return True
         return any(m.get("kind") == "MemberExpr" and m.get("referencedMemberDecl") in sentinel for m in A.walk(c)) or \
             any(y.get("kind") == "DeclRefExpr" and (y["referencedDecl"]["id"] in binds or (y["referencedDecl"].get("kind") == "VarDecl" and "bool" in A.qtype(y))) for y in A.walk(c))
     conds = [(c, pol) for c, pol in conds if relevant(c)]
     cconds = [(c, pol) for c, pol in cconds if relevant(c)]
     allc = conds + cconds
     exprs = sorted({member_text(m) for c, _ in allc for m in A.walk(c) if m.get("kind") == "MemberExpr" and m.get("referencedMemberDecl") in sentinel} |
+                   {copies[y["referencedDecl"]["id"]] for c, _ in allc for y in A.walk(c) if y.get("kind") == "DeclRefExpr" and (y.get("referencedDecl") or {}).get("id") in copies} |
                    {member_text(m) for a in binds.values() for m in A.walk(a) if m.get("kind") == "MemberExpr" and m.get("referencedMemberDecl") in sentinel})
     me = member_text(tgt) if is_sent else None
     # plain local variables in the conditions are free (both truth values are tried) unless they are
@@ -453,6 +482,8 @@ def _queue_witness(u, sentinel, member_text, x, tgt, is_sent, conds, cconds, bin
         def hook(n, ev, asg=asg):
             if n.get("kind") == "MemberExpr" and n.get("referencedMemberDecl") in sentinel:
                 return asg[member_text(n)]
+            if n.get("kind") == "DeclRefExpr" and (n.get("referencedDecl") or {}).get("id") in copies:
+                return asg[copies[n["referencedDecl"]["id"]]]
             return NotImplemented
         try:
             sat = False
